@@ -97,6 +97,23 @@ def main() -> int:
                 j = run.job(d, want=["manifest"], cfg={"literal_enums": le}, plan={"fn": "c14", "args": {"cases": cases}})
                 info[j["id"]] = ("enum", le, cases)
                 jobs.append(j)
+        # the same property declared as an enum by two allOf members: the composition lists the values both members list, or is diagnosed
+        for ri, (rel, v1, v2) in enumerate([("equal", ["new", "paid"], ["new", "paid"]), ("subset", ["new", "paid", "shipped"], ["new", "paid"]), ("disjoint", ["new", "paid"], ["x", "y"]), ("overlap", ["new", "paid"], ["paid", "late"]),
+                                            ("int_subset", [1, 2, 3], [1, 2]), ("int_overlap", [1, 2], [2, 3]), ("same_names_case", ["active", "idle"], ["Active", "IDLE"]), ("same_names_punct", ["on-hold", "open"], ["on_hold", "open"]),
+                                            ("same_names_punct_subset", ["a-b", "c", "d"], ["a_b", "c"]), ("same_names_positional", ["1-queued", "2-done"], ["3-failed", "4-gone"]), ("same_names_positional_subset", ["1x", "2y", "3z"], ["2y", "1x"])]):
+            for flip in (False, True):
+                t = "string" if isinstance(v1[0], str) else "integer"
+                a = {"type": "object", "properties": {"p": {"type": t, "enum": v1}}}
+                b = {"type": "object", "properties": {"p": {"type": t, "enum": v2}}}
+                comps = {"EA": a, "EB": b, "MX": {"allOf": [{"$ref": "#/components/schemas/" + ("EB" if flip else "EA")}, {"$ref": "#/components/schemas/" + ("EA" if flip else "EB")}], "additionalProperties": False}}
+                both = [v for v in v1 if any(type(v) is type(x) and v == x for x in v2)]
+                cases = {"MX": {"values": both or v1, "required": False, "null": False, "default": False, "ref": False, "prop": "p", "clash": "allof_" + rel, "must_be_diagnosed": not both,
+                                "extra_unlisted": [v for v in v1 + v2 if v not in both]}}
+                d = docs.base_doc("3.0.3", "Enum conjunction API")
+                d["components"]["schemas"] = comps
+                j = run.job(d, want=["manifest"], cfg={"literal_enums": le}, plan={"fn": "c14", "args": {"cases": cases}})
+                info[j["id"]] = ("enum", le, cases)
+                jobs.append(j)
         # consts (one per document so that a broken one stays local)
         for ci, c in enumerate(CONSTS):
             comps, cases = {}, {}
@@ -179,17 +196,24 @@ def main() -> int:
         for a, x in actions_results(res):
             per_case.setdefault(a["x"]["case"], []).append((a, x))
         for key, case in cases.items():
-            w = {"doc": {"components": {"schemas": {k: v for k, v in j["doc"]["components"]["schemas"].items() if k == key or k == "E" + key[1:]}}}, "case": case, "literal_enums": le}
+            w = {"doc": {"components": {"schemas": {k: v for k, v in j["doc"]["components"]["schemas"].items() if k == key or k == "E" + key[1:] or str(case.get("clash") or "").startswith("allof_")}}}, "case": case, "literal_enums": le}
             obs = per_case.get(key)
             cls_of = (man.get("refs") or {}).get(f"/components/schemas/{key}")
             if not obs:
                 # not generated: must be diagnosed
                 ev.count("cases_rejected")
+                if str(case.get("clash") or "").startswith("allof_"):
+                    ev.count("allof_enum_conjunctions_diagnosed")
                 if key not in diag_text and ("E" + key[1:]) not in diag_text:
                     vd.violation(f"silently_dropped:{style}", f"{key} was not generated and no diagnostic names it", w)
                 continue
             ev.count("cases_generated")
             vals = case.get("values")
+            if str(case.get("clash") or "").startswith("allof_"):
+                ev.count("allof_enum_conjunctions_generated")
+            if case.get("must_be_diagnosed"):
+                vd.violation(f"conflicting_enums_merged:{style}", f"{key}: allOf members list {case.get('extra_unlisted')} for the same property with no value in common ({case.get('clash')}), yet the composition was generated without a diagnostic", w)
+                continue
             for a, x in obs:
                 what = a["x"]["what"]
                 if x.get("action_exc"):
